@@ -542,8 +542,11 @@ class Node(
         result = super()._before_run(check_readiness=check_readiness)
         if self.use_cache:  # Write cache and continue
             # Only once the run is admitted -- a refused run must not vouch for outputs
-            self._cached_inputs = self.inputs.to_value_dict()
+            self._write_cache()
         return result
+
+    def _write_cache(self) -> None:
+        self._cached_inputs = self.inputs.to_value_dict()
 
     def _on_cache_hit(self) -> None:
         """A hook for subclasses to act on cache hits"""
